@@ -74,11 +74,10 @@ def config_dict(cset):
         constr["var_equal"] = [[R2r, R3r]]
         truth = {R2r: -0.7, R2i: 0.7, R3i: -1.1}
     elif cset == "bound0":
-        # one-sided range whose finite end is exactly 0, active: the phase is fixed pi away from what the data prefer
-        constr["var_range"] = {R3r: [0, None]}
-        constr["fix_var"] = {R3i: -1.1 + math.pi}
-        truth = {R2r: 0.8, R2i: 0.7, R3r: -0.6}   # data generated with a NEGATIVE radius: the allowed optimum sits on r = 0
-        start = dict(truth); start[R3r] = 0.3
+        # one-sided range whose finite end is exactly 0, and ACTIVE: the data are generated with the phase at +1.1, the range is (-inf, 0]
+        constr["var_range"] = {R3i: [None, 0]}
+        truth = {R2r: 0.8, R2i: 0.7, R3r: 0.9, R3i: 1.1}
+        start = dict(truth); start[R3i] = -0.3
     elif cset == "bounds":
         # two-sided, lower-only, upper-only, and a bounded radius whose range is negative
         part["R_BC"].update({"float": "mg", "mass_min": 0.4, "mass_max": 0.6, "width_min": 0.01})
